@@ -14,6 +14,7 @@ RULE = ("cases are (valid graph, partial injective name map) pairs: identity, si
         "onto old-or-fresh names; exhaustive over all partial injections for graphs with <= 3 demes in the "
         "thorough tier; non-trivial = at least one deme renamed; distinct by (dictionary, map)")
 
+DRV = [None]
 FRESH = ["N1", "N2", "N3", "N4", "N5", "N6", "N7", "N8", "N9"]
 
 
@@ -79,7 +80,7 @@ def spec_check(g, names_map, h, before, after):
     back = h.rename_demes(inv)
     if not (wire.deep_eq(gen.graph_payload(back), before[0])):
         return ("rename:not-invertible", "renaming back does not restore the graph")
-    vb = validity.check_graph(None, h)
+    vb = validity.check_graph(DRV[0], h)
     if vb:
         return ("rename:invalid-result", "renamed graph is invalid: " + vb)
     return None
@@ -90,6 +91,7 @@ def run(chk):
     if ndis == 0:
         return chk.finish("proof", nobl, ndis, axioms, RULE)
     drv = wire.Driver()
+    DRV[0] = drv
     rng = random.Random(chk.seed + 15)
     for label, doc, g in graphs.pool(chk, 120, 1500):
         payload = gen.graph_payload(g)
